@@ -15,7 +15,8 @@
      ack     {}                                   the driver's acknowledgement of a Reorg reaches the detector (only used for
                                                   the signature of known finding F6)
      restart {}                                   the node was stopped and started again on the same DB files
-     end     {quiet, last, store:[{n,v,evs}]}     the chain has stopped and the node was run until at rest (quiet);
+     end     {quiet, loop, last, store:[...]}     the chain has stopped and the node was run until at rest (quiet), or it was
+                                                  seen to be rewound 30 times in that phase (loop);
                                                   store = content of the store read back through its query methods
      rpc, download, deliver, notify, drift, panic   recorded for the reader; not judged
 
@@ -162,7 +163,9 @@ EvEnd ==
                THEN <<V("Converged", [missing |-> missing, wrong |-> {s[i] : i \in wrong}, last |-> Trace[l].last, tip |-> TipView,
                                       kf |-> IF missing = {} /\ AllKf(wrong, "F7") THEN "F7" ELSE "none"])>>
                ELSE <<>>
-     IN viol' = IF Trace[l].quiet THEN viol \o v0 \o v1 \o v2 ELSE viol
+         \* the chain stopped, yet the syncer is rewound again and again (observed 30 times): it never converges
+         v3 == IF Trace[l].loop THEN <<V("Converged", [why |-> "rewound for ever after the chain stopped", store |-> s, kf |-> "none"])>> ELSE <<>>
+     IN viol' = IF Trace[l].quiet THEN viol \o v0 \o v1 \o v2 ELSE viol \o v3
   /\ l' = l + 1 /\ UNCHANGED <<t, tag, B, cv, tip, fin, st, seen, pendAck, forks, kfb>>
 
 Judged == {"cfg", "chain", "process", "track", "reorg", "ack", "restart", "end"}
